@@ -378,6 +378,39 @@ pub fn check(thorough: bool, _seed: u64) -> Check {
             "overflow boundary": "for scalars of magnitude above 1: the first or last number set to the largest magnitude whose product with s is finite, its predecessor (negated) and its successor", "scalars": "{0,-0.0,1,-1,2,0.1,1e-300,1e300,succ(1),pred(1),1+2.5e-13,-1+1e-13,1e5,3e6,1e-5,1e-9,3,7,0.7f32} and, relative to the operand's additive constant c0: -c0, -succ(c0), -pred(c0), -(c0+2ulp)", "second operands": "8 vectors incl. the negated first operand (exact cancellation), the operand itself, copies one ulp apart in every / in one number, and a -0.0/1e300 pattern",
             "oracle": "IEEE primitive on each number, compared on bits; value level through the real evaluate at 3 arguments"}),
     };
+    // pairs of full-mantissa numbers of every relative size (inexact sums and products whichever operand is the larger):
+    // one number of the operand and the scalar / the matching number of the second operand
+    let cs3 = cs.clone();
+    let ph2 = Phase {
+        name: "full-mantissa-pairs",
+        units: n,
+        split: 1,
+        body: Box::new(move |unit, cx| {
+            let c = &cs3[unit];
+            if c.n == 0 || !(c.scalar || c.binary) {
+                return Ok(());
+            }
+            const FM: [f64; 14] = [0.1, 0.3, 1.0 / 3.0, 2.0 / 3.0, 0.7, -0.3, 123456.789, -3.3333333333333335e-8, 1.0, 9007199254740994.0, 1.4285714285714286e21, 3.3e-5, -0.1, 1e-17];
+            let lane = cx.choose(c.n);
+            let mut a: Vec<f64> = (0..c.n).map(lane_id).collect();
+            a[lane] = FM[cx.choose(FM.len())];
+            let o = FM[cx.choose(FM.len())];
+            let mut b = vec![];
+            if c.binary {
+                b = (0..c.n).map(|i| -lane_id(i) * 0.5).collect();
+                b[lane] = o;
+            }
+            cx.nontrivial();
+            cx.evals(1);
+            if cx.sampling() {
+                cx.sample(json!({"impl": format!("{} {}", c.ty, c.op), "operand": a, "second_operand": b, "scalar": o}));
+            }
+            (c.run)(&a, &b, o).map_err(|(what, d)| Fail::new(format!("{} {}: {}", c.ty, c.op, what), json!({"operand": fjs(&a), "second_operand": fjs(&b), "scalar": fj(o), "observation": d})))
+        }),
+        classes: vec![],
+        bounds: json!({"impls": "every scalar and binary operator implementation", "operands": "lane-identifier vector with one number (every position) from F = {0.1,0.3,1/3,2/3,0.7,-0.3,123456.789,-1e-7/3,1,2^53+2,1e22/7,3.3e-5,-0.1,1e-17}",
+            "scalars / second operand": "the scalar, or the same position of the second operand, from F (all 196 ordered pairs)"}),
+    };
     let mut extra = serde_json::Map::new();
     extra.insert("operator_impls".into(), json!(names));
     extra.insert("operator_impl_count".into(), json!(n));
@@ -385,7 +418,7 @@ pub fn check(thorough: bool, _seed: u64) -> Check {
         id: "C14",
         rule: "choice tree: operator implementation (unit) x operand vector x (second operand | scalar); each leaf applies one real operator impl once; non-trivial = operand with >=2 non-zero numbers".into(),
         assumptions: vec!["Nums visitor lists every f64 of a form in a fixed order (additive constant first)".into()],
-        phases: vec![ph],
+        phases: vec![ph, ph2],
         extra,
         controls: vec![],
     }
